@@ -42,12 +42,12 @@ pub fn gen(rng: &mut StdRng, ops: u32) -> Tree {
     if ops == 0 {
         return match rng.gen_range(0..10) {
             0..=5 => {
-                let xs = [("0", 0.0), ("1", 1.0), ("2", 2.0), ("3", 3.0), ("0.5", 0.5), ("4", 4.0), ("10", 10.0), ("0.25", 0.25)];
+                let xs = [("0", 0.0), ("1", 1.0), ("2", 2.0), ("3", 3.0), ("0.5", 0.5), ("4", 4.0), ("10", 10.0), ("0.25", 0.25), ("2000", 2000.0), ("1101", 1101.0)];
                 let (s, v) = xs[rng.gen_range(0..xs.len())];
                 Tree::Num(v, s.to_string())
             }
-            6 => Tree::Var("X".to_string()),
-            7 => Tree::Var("U".to_string()),
+            6 => Tree::Var(["X", "X", "QN", "QP"][rng.gen_range(0..4)].to_string()),
+            7 => Tree::Var(["U", "U", "QN", "QM"][rng.gen_range(0..4)].to_string()),
             8 => Tree::Str(["", "A", "B"][rng.gen_range(0..3)].to_string()),
             _ => Tree::Var(["S$", "U$"][rng.gen_range(0..2)].to_string()),
         };
@@ -98,7 +98,7 @@ pub fn tree_json(t: &Tree) -> J {
 
 fn observe(expr: &str) -> J {
     let mut s = Sess::new(false, false);
-    for l in ["X = 2.5", "S$ = \"B\""] {
+    for l in ["X = 2.5", "S$ = \"B\"", "QN = -8 ^ .5", "QP = 0 ^ -1", "QM = -QP"] {
         s.apply(&call_submit(l));
     }
     let ev = s.apply(&call_submit(&format!("PRINT {}", expr)));
